@@ -487,6 +487,8 @@ class CompositeFrontend(ConstrainedFrontend):
 
             for v in s.variables:
                 merged._solvers[v] = s
+            # only its previous holders know whether a shared child has been checked for satisfiability
+            merged._unchecked_solvers.add(s)
 
         noncommon_solvers = [[s for s in cs._solver_list if id(s) not in common_ids] for cs in [self, *others]]
 
